@@ -5,6 +5,8 @@ import (
 	"fmt"
 	"iter"
 	"math/rand/v2"
+
+	"reduction.dev/reduction/util/verifhook"
 )
 
 type ZipTree struct {
@@ -18,6 +20,7 @@ func New() *ZipTree {
 // Insert is the original zip tree insert algorithm from https://arxiv.org/pdf/1806.06726.
 func (t *ZipTree) insert(node *Node) error {
 	node.rank = rand.Uint32()
+	node.rank = uint32(verifhook.Tune("ziptree.rank", int64(node.rank)))
 	key := node.Key
 	var prev *Node
 	cur := t.root
